@@ -24,6 +24,21 @@ thread_local! {
     static PANIC_MSG: Cell<Option<String>> = const { Cell::new(None) };
 }
 
+/// Operations that run outside the scheduler's control (destructors during tear-down, the
+/// controller's clean-up after an execution).  They are few in a sane crate; a corrupted queue can
+/// make a destructor loop practically for ever (e.g. walking from a position that is ahead of the
+/// head), which would hang the worker: after a few million of them the process aborts, and the
+/// driver reports the crash together with the scenario.
+static PASS_THROUGH_OPS: std::sync::atomic::AtomicU64 = std::sync::atomic::AtomicU64::new(0);
+
+fn pass_through_op() {
+    let n = PASS_THROUGH_OPS.fetch_add(1, std::sync::atomic::Ordering::Relaxed);
+    if n > 20_000_000 {
+        eprintln!("mqv: more than 20 million uncontrolled operations in one execution (runaway destructor?): aborting");
+        std::process::abort();
+    }
+}
+
 pub fn trace_on() -> bool {
     static ON: std::sync::OnceLock<bool> = std::sync::OnceLock::new();
     *ON.get_or_init(|| std::env::var("MQV_TRACE").is_ok())
@@ -627,22 +642,30 @@ impl Sched {
     /// Common prologue of every point.  Returns None if the point must be skipped
     /// (unmanaged thread, no execution, unwinding during teardown).
     fn enter(&self) -> Option<(usize, MutexGuard<'_, State>)> {
-        let me = current_tid()?;
-        let st = self.lock();
+        let me = match current_tid() {
+            Some(m) => m,
+            None => {
+                pass_through_op();
+                return None;
+            }
+        };
+        let mut st = self.lock();
         if !st.active {
+            pass_through_op();
             return None;
         }
         if std::thread::panicking() {
             // a genuine panic is unwinding through the crate's destructors: tear the execution
             // down now and let the destructors run on the real primitives
             if st.abort.is_none() {
-                let mut st = st;
                 let msg = PANIC_MSG
                     .with(|p| p.take())
                     .unwrap_or_else(|| "<panic>".to_string());
                 st.set_abort(Verdict::Panic(me, msg));
                 self.wake_all();
             }
+            drop(st);
+            pass_through_op();
             return None;
         }
         if st.abort.is_some() {
@@ -756,6 +779,7 @@ impl Sched {
     /// thread has finished (or the execution was torn down and all threads have unwound).
     pub fn run<F: FnOnce() + Send + 'static>(&self, cfg: ExecCfg, main: F) -> Outcome {
         assert!(current_tid().is_none(), "run() must be called from an unmanaged thread");
+        PASS_THROUGH_OPS.store(0, std::sync::atomic::Ordering::Relaxed);
         {
             let mut st = self.lock();
             let exec_no = st.exec_no + 1;
